@@ -79,6 +79,15 @@ def cases(tier, seed):
         if case["form"] == "frame":
             case["labels"] = ["default", "perm", "offset", "default"][F_h("m4@74", 4)]
         case["id_dtype"] = ["int64", "int32", "int16", "uint8", "int8"][F_h("m5@75", 5)]
+        if case.get("ensure_sorted") and F_h("checksoff", 2) == 1:
+            case["checks_off"] = True            # sorting requested with every check switched off
+        if F_h("valdt", 5) == 3 and ncols == 1 and "scale" not in case:
+            # narrow value dtype: every chunk fits, the sums over chunks may not (then the run must fail, not store something else)
+            vd, mul, bits = [("int8", 40, 8), ("int16", 10000, 16)][F_h("valdt2", 2)]
+            top = max([v for ch in case["chunks"] for _, _, v in ch] or [1])
+            mul = min(mul, (2 ** (bits - 1) - 1) // top)          # every value handed in fits the dtype
+            case["chunks"] = [[[i, j, v * mul] for i, j, v in ch] for ch in case["chunks"]]
+            case.update({"val_dtype": vd, "bits": bits})
         if F_h("m9@76", 9) == 4 and ncols == 1:
             # duplicate checking switched off: a pixel may repeat INSIDE a chunk; the result must still be the aggregate
             # (a chunk never holds more rows than the matrix has pixels: the per-chunk temporary collection is sized for that)
